@@ -36,7 +36,7 @@ def run(tier, seed, replay=None):
         cases = [{"A": d["A"], "b": d["b"], "c": d["c"], "expect_smin": d["smin"]} for d in exported]
         nexp = len(cases)
         ck.extra["tlc_exported_lps"] = nexp
-        cases += [drv.gen(rng, big=(i % 3 == 0)) for i in range(600 if tier == "quick" else 8000)]
+        cases += [drv.gen(rng, big=(i % 3 == 0)) for i in range(900 if tier == "quick" else 10000)]
         # no variables: every row reads 0 <= b_i
         cases += [{"A": [[] for _ in b], "b": b, "c": []} for b in ([-1], [1], [0, 2], [1, -1], [0])]
     res = run_tasks("lp", "run_lp", cases, timeout=120)
